@@ -712,8 +712,17 @@ pub fn gen_outage_scenario(property: &str, seed: u64) -> Scenario {
     let mut t0: Vec<Op> = (0..n_polls).map(|_| Op::Poll).collect();
     // once the node is back, two more polls: the tower must resume by itself within them
     t0.push(Op::WaitNodeUp { max: 600 });
-    t0.push(Op::Poll);
-    t0.push(Op::Poll);
+    if r.chance(1, 4) {
+        // the node comes back on a sibling of the tower's tip with the same work (it lost its last block): every poll
+        // succeeds, none brings a better tip -- the tower must still notice that the node is back
+        t0.push(Op::WorseTip);
+        t0.push(Op::Poll);
+        t0.push(Op::WorseTip);
+        t0.push(Op::Poll);
+    } else {
+        t0.push(Op::Poll);
+        t0.push(Op::Poll);
+    }
     let mut t1 = vec![];
     for _ in 0..r.range(1, 3) {
         t1.push(match r.below(5) {
